@@ -506,7 +506,8 @@ def run_property(prop, tier, seed, only, jobs_override):
                     log("  - " + json.dumps(r)[:600])
             return 2
     known = load_known()
-    known_by_h = {f["harness"]: f for f in known.get("findings", []) if f.get("property") == prop}
+    known_by_h = {f["harness"]: f for f in known.get("findings", [])
+                  if f.get("property") == prop or prop in f.get("also_properties", [])}
     tcfg = cfg.get(tier, {})
     jobs = jobs_override or tcfg.get("jobs", 8)
     timeout_s = tcfg.get("timeout_s", 900 if tier == "quick" else 3600)
